@@ -9,6 +9,6 @@ git -C "$WT" apply "$P" || { echo "patch does not apply"; exit 3; }
 cd /verif
 for id in "$@"; do
   VERIF_REPO="$WT" ./check "$id" > /tmp/mutrun_$id.log 2>&1; rc=$?
-  echo "== $id rc=$rc: $(grep -c '^VIOLATION' /tmp/mutrun_$id.log) violation line(s)"; grep -A1 '^VIOLATION' /tmp/mutrun_$id.log | grep -v '^--' | head -6; tail -1 /tmp/mutrun_$id.log
+  echo "== $id rc=$rc: $(grep -ac '^VIOLATION' /tmp/mutrun_$id.log) violation line(s)"; grep -a -A1 '^VIOLATION' /tmp/mutrun_$id.log | grep -v '^--' | head -6; tail -1 /tmp/mutrun_$id.log
 done
 git -C "$WT" checkout -- .
